@@ -21,11 +21,15 @@ GS(v) == CASE v = 0 -> "none" [] v = 1 -> "active" [] v = 2 -> "expired" [] OTHE
 G(o) == [pr \in Pairs |-> IF pr = <<A, B>> THEN GS(o.ab) ELSE GS(o.ba)]
 \* what cannot be told apart by observation: a revoked allowance is an absent one
 Abs(g) == [pr \in Pairs |-> IF g[pr] = "revoked" THEN "none" ELSE g[pr]]
+\* the kind of a stored allowance is only recorded by the grant steps; afterwards it stays until the allowance is gone
+KeepKinds(g2) == [pr \in Pairs |-> IF g2[pr] = "none" THEN "-" ELSE gkind[pr]]
+GKObs(o, pr) == IF pr = <<A, B>> THEN o.ab ELSE o.ba
 PName(p) == CASE p = A -> "A" [] p = B -> "B" [] OTHER -> "G"
 ToSet(s) == {s[i] : i \in DOMAIN s}
 
 TrInit == IsEvent("Init") /\ LET e == Trace[l] IN
   /\ grants' = G(e.g)
+  /\ gkind' = [pr \in Pairs |-> "-"]
   /\ owned' = [p \in P |-> [k \in Kinds |-> 0]]
   /\ last' = NoAct /\ res' = "init" /\ nops' = 0
   /\ Report("Setup.Prepared", e.prep = "")
@@ -40,17 +44,20 @@ Failed(e) == e.res = "blockfail"
 IsGrantEvent == l <= Len(Trace) /\ Trace[l].act \in GrantActs /\ ~Failed(Trace[l]) /\ l' = l + 1
 TrGrant == IsGrantEvent /\ LET e == Trace[l]  a == e.args  pr == <<a.g, a.e>> IN
   /\ grants' = G(e.g)
+  /\ gkind' = [q \in Pairs |-> GKObs(e.gk, q)]
   /\ owned' = owned
-  /\ last' = Act(e.act, "", a.g, a.e, 0)
+  /\ last' = [Act(e.act, "", a.g, a.e, 0) EXCEPT !.k1 = IF e.act = "Revoke" THEN "" ELSE a.ak]
   /\ res' = IF e.res = "ok" THEN "ok" ELSE "fail"
   /\ nops' = nops + 1
   /\ Report("Setup.GrantPair", pr \in Pairs)
+  /\ Report("Setup.AllowanceKind", e.act = "Revoke" \/ a.ak \in AKinds)
   \* the spec's own action on the observed relation
   /\ ConfD(e.act, LET m == CASE e.act = "Grant" -> [r |-> IF grants[pr] # "active" THEN "ok" ELSE "fail", s |-> "active"]
                             [] e.act = "GrantExp" -> [r |-> IF grants[pr] # "active" THEN "ok" ELSE "fail", s |-> "expired"]
                             [] e.act = "Revoke" -> [r |-> IF grants[pr] \in {"active", "expired"} THEN "ok" ELSE "fail", s |-> "none"]
                   IN /\ res' = m.r
                      /\ (m.r = "ok" => grants'[pr] = m.s)
+                     /\ (m.r = "ok" /\ e.act # "Revoke" => gkind'[pr] = a.ak)     \* the stored allowance is of the granted kind
                      /\ \A q \in Pairs \ {pr} : grants'[q] = Prune(Abs(grants))[q],
            <<e.act, a, e.res, e.g, grants>>)
 
@@ -64,7 +71,7 @@ TrDeliver == IsEvent("Deliver") /\ ~Failed(Trace[l]) /\ LET e == Trace[l]  a == 
          Ch(p) == ChComps(p) # {}
          modelOK == Authorised(seen, k, a.s, a.c, a.n) /\ HandlerOK(k, a.s, a.c, a.n)
      IN
-     /\ grants' = G(e.gpost)
+     /\ grants' = G(e.gpost) /\ gkind' = KeepKinds(G(e.gpost))
      /\ owned' = [p \in P |-> IF Ch(p) THEN [owned[p] EXCEPT ![k] = @ + 1] ELSE owned[p]]
      /\ last' = Act("Deliver", k, a.s, a.c, a.n)
      /\ res' = IF e.res = "ok" THEN "ok" ELSE "fail"
@@ -94,7 +101,7 @@ TrDeliverK == IsEvent("DeliverK") /\ ~Failed(Trace[l]) /\ LET e == Trace[l]  a =
          Ch(p) == ChComps(p) # {}
          modelOK == (a.s = a.c \/ Granted(seen, a.c, a.s)) /\ KeyAccepted(k, a.c, a.n, a.v)
      IN
-     /\ grants' = G(e.gpost)
+     /\ grants' = G(e.gpost) /\ gkind' = KeepKinds(G(e.gpost))
      /\ owned' = [p \in P |-> IF Ch(p) THEN [owned[p] EXCEPT ![k] = @ + 1] ELSE owned[p]]
      /\ last' = [Act("DeliverK", k, a.s, a.c, a.n) EXCEPT !.k1 = a.v]
      /\ res' = IF e.res = "ok" THEN "ok" ELSE "fail"
@@ -122,7 +129,7 @@ TrDeliver2 == IsEvent("Deliver2") /\ ~Failed(Trace[l]) /\ LET e == Trace[l]  a =
          modelOK == /\ Authorised(seen, a.k1, a.s, a.s, a.s) /\ HandlerOK(a.k1, a.s, a.s, a.s)
                     /\ Authorised(seen, a.k2, a.s, a.c, a.c) /\ HandlerOK(a.k2, a.s, a.c, a.c)
      IN
-     /\ grants' = G(e.gpost)
+     /\ grants' = G(e.gpost) /\ gkind' = KeepKinds(G(e.gpost))
      /\ owned' = [p \in P |-> IF Ch(p) THEN [owned[p] EXCEPT ![a.k2] = @ + 1] ELSE owned[p]]
      /\ last' = Act2(a.k1, a.k2, a.s, a.c, a.ord)
      /\ res' = IF e.res = "ok" THEN "ok" ELSE "fail"
@@ -140,6 +147,28 @@ TrDeliver2 == IsEvent("Deliver2") /\ ~Failed(Trace[l]) /\ LET e == Trace[l]  a =
      /\ ConfD("Writers2", e.res = "ok" => {p \in P : Ch(p)} \subseteq Writers(a.k1, a.s, a.s, a.s) \cup Writers(a.k2, a.s, a.c, a.c),
               <<a, {<<p, ChComps(p)>> : p \in P}>>)
 
+\* the genesis export / import round trip of the whole application: nothing attributed to anybody may differ afterwards
+ReimportOK == l <= Len(Trace) /\ Trace[l].act = "Reimport" /\ Trace[l].res = "ok" /\ l' = l + 1
+TrReimport == ReimportOK /\ LET e == Trace[l]  k == e.args.kind IN
+  /\ Assert(k \in Kinds, <<"unknown world kind in trace", l, k>>)
+  /\ LET CompChanged(p, i) == e.obs.pre[PName(p)][i] # e.obs.post[PName(p)][i]
+         AllCh(p) == {Comps[i] : i \in {j \in DOMAIN Comps : CompChanged(p, j)}}
+         ChComps(p) == AllCh(p) \ NotInGenesis          \* what the genesis of the modules carries
+         Ch(p) == ChComps(p) # {}
+     IN
+     /\ grants' = G(e.gpost) /\ gkind' = KeepKinds(G(e.gpost))
+     /\ owned' = [p \in P |-> IF Ch(p) THEN [owned[p] EXCEPT ![k] = @ + 1] ELSE owned[p]]
+     /\ last' = Act("Reimport", "", 0, 0, 0)
+     /\ res' = "ok" /\ nops' = nops + 1
+     /\ Report("Setup.ObservedShape", \A p \in P : Len(e.obs.pre[PName(p)]) = Len(Comps) /\ Len(e.obs.post[PName(p)]) = Len(Comps))
+     /\ Report("C03.NoForeignWrite", NoForeignWrite)
+     /\ ConfD("Reimport", Reimport, <<k, {<<p, ChComps(p)>> : p \in P}>>)
+     \* reported, not judged: attributed state the genesis export does not carry at all
+     /\ ConfD("ReimportNotInGenesis", \A p \in P : AllCh(p) \cap NotInGenesis = {}, <<k, {<<p, AllCh(p) \cap NotInGenesis>> : p \in P}>>)
+\* the export or the import failed (panic / error): the harness cannot go on - not a verdict of C03
+TrReimportFail == /\ l <= Len(Trace) /\ Trace[l].act = "Reimport" /\ Trace[l].res # "ok" /\ l' = l + 1
+                  /\ UNCHANGED vars /\ Report("Setup.ReimportWorks", FALSE)
+
 \* which sdk.Msg types the Paloma modules registered, which of them the router serves, and the driver's own table
 TrRegistry == IsEvent("Registry") /\ LET e == Trace[l]
                                         regs == ToSet(e.reg)  routed == ToSet(e.routed)
@@ -156,6 +185,6 @@ TrBlockFail == /\ l <= Len(Trace) /\ Trace[l].act \in GrantActs \cup {"Deliver",
                /\ UNCHANGED vars /\ Report("Setup.BlockFailure", FALSE)
 
 TraceInit == Init /\ l = 1
-TraceNext == TrInit \/ TrGrant \/ TrDeliver \/ TrDeliver2 \/ TrDeliverK \/ TrRegistry \/ TrBlockFail
+TraceNext == TrInit \/ TrReimport \/ TrReimportFail \/ TrGrant \/ TrDeliver \/ TrDeliver2 \/ TrDeliverK \/ TrRegistry \/ TrBlockFail
 TraceAccepted == TLCGet("stats").diameter - 1 = Len(Trace)
 =============================================================================
